@@ -1895,6 +1895,25 @@ fin:
 	return res;
 }
 
+static bool
+doy_match_p(const bitint383_t *doy, unsigned int y, unsigned int m, unsigned int d)
+{
+/* whether Y-M-D is one of the BYYEARDAYs in DOY, or DOY is empty */
+	const int yd = (int)ymd_get_yd(y, m, d);
+	const int ny = (y % 4U) ? 365 : 366;
+	int tmp;
+
+	if (LIKELY(!bi383_has_bits_p(doy))) {
+		return true;
+	}
+	for (bitint_iter_t i = 0UL; (tmp = bi383_next(&i, doy), i);) {
+		if ((tmp > 0 && tmp == yd) || (tmp < 0 && ny + 1 + tmp == yd)) {
+			return true;
+		}
+	}
+	return false;
+}
+
 size_t
 rrul_fill_Mly(echs_instant_t *restrict tgt, size_t nti, rrulsp_t rr)
 {
@@ -2039,7 +2058,8 @@ rrul_fill_Mly(echs_instant_t *restrict tgt, size_t nti, rrulsp_t rr)
 		if (!(wd_mask & (1U << w)) ||
 		    !(m_mask & (1U << m)) ||
 		    (!(posd_mask & (1U << d)) &&
-		     !(negd_mask & (1U << (maxd - d))))) {
+		     !(negd_mask & (1U << (maxd - d)))) ||
+		    !doy_match_p(&rr->doy, y, m, d)) {
 			/* the day is filtered, no point in looking at every
 			 * minute of it: step just short of midnight, keeping
 			 * in phase with INTERVAL */
@@ -2257,7 +2277,8 @@ rrul_fill_Sly(echs_instant_t *restrict tgt, size_t nti, rrulsp_t rr)
 		if (!(wd_mask & (1U << w)) ||
 		    !(m_mask & (1U << m)) ||
 		    (!(posd_mask & (1U << d)) &&
-		     !(negd_mask & (1U << (maxd - d))))) {
+		     !(negd_mask & (1U << (maxd - d)))) ||
+		    !doy_match_p(&rr->doy, y, m, d)) {
 			/* the day is filtered, no point in looking at every
 			 * second of it: step just short of midnight, keeping
 			 * in phase with INTERVAL */
